@@ -129,6 +129,30 @@ def call_root(A_padded, p, eps, rel, method, k, padding_start, dtype, lobpcg_ite
   return _JIT[key](a, jnp.asarray(p, jnp.int32), jnp.asarray(eps, dtype), jnp.asarray(padding_start, jnp.int32))
 
 
+def _lobpcg_breaks_down(c, in_dtype):
+  """True iff (a) the input has numerical rank < k and (b) jax's own lobpcg_standard, called by the harness on the masked
+  matrix with the routine's search directions and iteration count, returns non-finite eigenpairs."""
+  import jax.numpy as jnp
+  from jax.experimental.sparse import linalg
+  A = np.asarray(c["A"], np.float64)
+  n, N, k = c["n"], c["N"], c["k"]
+  if n == 0:
+    return False
+  lam = np.linalg.eigvalsh(A)
+  u_in = 2.0 ** -53 if in_dtype == "float64" else 2.0 ** -24
+  if int(np.sum(lam > 64 * n * u_in * max(lam[-1], 0.0))) >= k:
+    return False
+  M = np.zeros((N, N), np.float64 if in_dtype == "float64" else np.float32)
+  M[:n, :n] = A
+  sd = jnp.concatenate((jnp.eye(k), jnp.zeros((N - k, k))), axis=0)
+  iters = c.get("lobpcg_iters", 0) or k
+  try:
+    ev, vec, _ = linalg.lobpcg_standard(jnp.asarray(M), sd.astype(M.dtype), iters)
+  except Exception:  # pylint: disable=broad-except
+    return False
+  return not (np.all(np.isfinite(np.asarray(ev))) and np.all(np.isfinite(np.asarray(vec))))
+
+
 def check_call(c, X, metrics, rec, wit, in_dtype, compute_f64, source="direct"):
   """The oracle, shared by direct and in-situ observations.
 
@@ -143,6 +167,12 @@ def check_call(c, X, metrics, rec, wit, in_dtype, compute_f64, source="direct"):
   rec.count("calls_" + source)
   if X.shape != (N, N):
     rec.violation("shape", "root shape %s for input %d" % (X.shape, N), wit)
+    return
+  if not np.all(np.isfinite(X)) and c["method"] == "lobpcg" and err != err and _lobpcg_breaks_down(c, in_dtype):
+    # known finding (known_findings.json): jax's lobpcg_standard itself returns NaN eigenpairs when the matrix has numerical
+    # rank < k; the routine then returns a NaN root WITH a NaN error (so the optimizer's gate rejects it)
+    rec.violation("lobpcg-breakdown-rank-below-k", "lobpcg_standard returns non-finite eigenpairs for a matrix of numerical rank < k=%d "
+                  "(n=%d p=%d); root and reported error are NaN" % (c["k"], n, p), wit)
     return
   if not np.all(np.isfinite(X)):
     rec.violation("non-finite-root:" + c["method"], "%s returned a non-finite matrix (err=%g, n=%d p=%d)" % (c["method"], err, n, p), wit)
